@@ -51,7 +51,7 @@ def input_defaults(s, fields, r):
 
 class SchemaGen:
     def __init__(self, rng, n_obj=None, n_iface=None, n_union=None, n_enum=None, n_input=None, deprecations=0.0,
-                 id_lists=True, custom_roots=None, odd_type_names=False, args=True, own_deprecation=0.0):
+                 id_lists=True, custom_roots=None, odd_type_names=False, args=True, own_deprecation=0.0, decoy_roots=None):
         self.rng = rng
         self.s = Schema()
         self.fcount = 0
@@ -156,9 +156,9 @@ class SchemaGen:
         s.d["schema_block"] = custom or r.random() < 0.2
         # decoy: an ordinary object type that carries a default root name without being that root
         # (only expressible in SDL with an explicit schema block; JSON names the roots anyway)
-        if r.random() < 0.12:
+        if (r.random() < 0.12) if decoy_roots is None else decoy_roots:
             for kind, dn in (("mutation", "Mutation"), ("subscription", "Subscription")):
-                if not s.roots.get(kind) and dn not in s.types and r.random() < 0.7:
+                if not s.roots.get(kind) and dn not in s.types and (decoy_roots or r.random() < 0.7):
                     s.add(dn, {"kind": "object", "fields": self.rand_fields(r.randint(1, 2), root=False), "implements": []})
                     self.outs.append(dn)
 
